@@ -1,1 +1,13 @@
 //! wirekit: being the wire of `turmoil-net` (see DESIGN.md section 4.2).
+//!
+//! * `exec` — a tiny deterministic executor (flag wakers, scenario-chosen poll order, `set_current`
+//!   before every poll).
+//! * `wire` — packet classifier, per-direction connection tracker, fault plan types.
+//! * `conn` — the scenario type, the application programs, the round loop (poll, egress, fate,
+//!   deliver) with the C06 oracle and the C16 monitors.
+//! * `gen`  — seeded generation, systematic fault placement, shrinking, known-defect predicates.
+
+pub mod conn;
+pub mod exec;
+pub mod gen;
+pub mod wire;
